@@ -116,6 +116,11 @@ def events():
         ("xml_no_system_element", {"kind": "xml", "buf": re.sub(r"<system>.*?</system>", "", small, flags=re.S)}),
         ("xml_unescaped_less_than", {"kind": "xml", "buf": small.replace("i == 0 &amp;&amp; x &lt; 5", "i == 0 && x < 5")}),
         ("xml_undeclared_namespace_prefix", {"kind": "xml", "buf": small.replace("<location ", '<location ed:y="3" ', 1)}),
+        # words that are keywords in one language only (query keywords as identifiers of a 3.x model, as names in XML)
+        ("xta_old_query_keywords_as_identifiers", {"kind": "xta", "newxta": False,
+                                                   "buf": "int control; int simulate; int strategy; process P { state s; init s; }\nsystem P;\n"}),
+        ("xml_location_named_deadlock", {"kind": "xml", "buf": small.replace(">L1<", ">deadlock<", 1)}),
+        ("xta_new_old_keywords_as_identifiers", {"kind": "xta", "buf": "int control; int simulate; process P() { state s; init s; }\nsystem P;\n"}),
         ("xta_unknown_source", {"kind": "xta", "buf": "process P() { state A, B; init A; trans A -> B { }, -> A { guard 1 ( ; }; }\nsystem P;\n"}),
     ]
     return ev
